@@ -103,7 +103,7 @@ fn chunk_spaced(rng: &mut Rng, vocab: &[String], depth: u32) -> String {
         };
     }
     let d = depth - 1;
-    match rng.below(48) {
+    match rng.below(49) {
         0..=4 => prim(rng) + " ",
         5 => format!("{}{} ", prim(rng), num(rng)),
         6 => format!("{}{}={} ", prim(rng), num(rng), num(rng)),
@@ -225,6 +225,20 @@ fn chunk_spaced(rng: &mut Rng, vocab: &[String], depth: u32) -> String {
                 next
             };
             format!("{set}{next}")
+        }
+        47 => {
+            // names the VM installs for its own use: with suitable category codes any name can be typed
+            let hidden: Vec<String> = vmh::built_ins().keys().filter(|k| k.contains('\u{0}')).map(|k| k.to_string()).collect();
+            if hidden.is_empty() {
+                return "\\relax ".to_string();
+            }
+            let name = hidden[rng.below(hidden.len() as u64) as usize].replace('\u{0}', "^^@");
+            let tail = pick(rng, &["=1 ", " ", " 3=1 ", "\\relax "]);
+            match rng.below(3) {
+                0 => format!("\\catcode`\\_=11 \\catcode0=11 \\{name}{tail}"),
+                1 => format!("\\catcode`\\_=11 \\catcode0=11 \\the\\{name}{tail}"),
+                _ => format!("\\catcode`\\_=11 \\catcode0=11 \\let\\xa=\\{name} \\xa{tail}"),
+            }
         }
         _ => pick(rng, ODD).to_string(),
     }
